@@ -54,8 +54,7 @@ def parser_fields(ctx):
             # a private sub-struct grouping frozen fields: its members are judged under their frozen names
             roles = [r for (S_, _f), (P_, r) in facts.aliases.items() if S_ == facts.embeds[(conn.HC, f)]]
             ctx.ob("R11.1", "grouped-field|%s" % f, True, "HttpConnection.%s groups the frozen fields %s" % (f, sorted(roles)))
-            if all(r in NOT_PARSER_STATE for r in roles):
-                continue
+            continue        # every member is a frozen field: parser state or not, it is judged under its own name
         read_side = False
         for w in field_writers(facts, conn.HC, f):
             if w[0] == conn.P + "new":
@@ -92,7 +91,11 @@ def initial_values(ctx):
         if r[0] != "agg" or r[1] != conn.HC:
             raise AnalysisError("HttpConnection::new does not return a literal")
         for f in FIELDS:
-            init[f] = r[3][names.index(f)]
+            from .util import struct_field_value
+            v_ = struct_field_value(ctx.facts, r, f)
+            if v_ is None:
+                raise AnalysisError("HttpConnection::new: initial value of %s cannot be read from the literal" % f)
+            init[f] = v_
     return init
 
 
